@@ -39,9 +39,28 @@ func guardPositive(b *ssa.BasicBlock, v ssa.Value) bool {
 	return false
 }
 
+// c20Bind maps the parameters of a small arithmetic helper to the arguments of the call site under analysis, so that a
+// formula moved into a helper (ratePerSecond(delta, millis)) is read with the caller's values and guards.
+var c20Bind map[*ssa.Parameter]ssa.Value
+
+func c20Subst(v ssa.Value) ssa.Value {
+	for i := 0; i < 4; i++ {
+		p, ok := v.(*ssa.Parameter)
+		if !ok {
+			return v
+		}
+		a, bound := c20Bind[p]
+		if !bound {
+			return v
+		}
+		v = a
+	}
+	return v
+}
+
 func stripAllConv(v ssa.Value) ssa.Value {
 	for {
-		v = core.StripConv(v)
+		v = core.StripConv(c20Subst(core.StripConv(v)))
 		if c, ok := v.(*ssa.Convert); ok {
 			// int64 -> float64 and integer narrowing keep the sign question on the source when the source is signed 64
 			v = c.X
@@ -57,7 +76,7 @@ func stripAllConv(v ssa.Value) ssa.Value {
 func arithChain(v ssa.Value) []ssa.Value {
 	var out []ssa.Value
 	for i := 0; i < 16; i++ {
-		v = core.StripConv(v)
+		v = core.StripConv(c20Subst(core.StripConv(v)))
 		out = append(out, v)
 		switch x := v.(type) {
 		case *ssa.Convert:
@@ -150,7 +169,15 @@ func runC20(c *Ctx) {
 
 	// ---- C20.sign: non-constant float divisions
 	nDiv := 0
+	type divSite struct {
+		host *ssa.Function   // function whose guards apply (the caller, for a formula in a helper)
+		blk  *ssa.BasicBlock // block whose dominating guards apply
+		bo   *ssa.BinOp
+		bind map[*ssa.Parameter]ssa.Value
+	}
+	var divSites []divSite
 	for _, fn := range fns {
+		fn := fn
 		core.EachInstr(fn, func(in ssa.Instruction) {
 			bo, ok := in.(*ssa.BinOp)
 			if !ok || bo.Op != token.QUO {
@@ -163,10 +190,41 @@ func runC20(c *Ctx) {
 			if _, isC := core.StripConv(bo.Y).(*ssa.Const); isC {
 				return // constant scaling
 			}
+			// a formula in an unexported helper over its parameters: judged at every call site with the arguments
+			_, xPar := arithRoot(bo.X).(*ssa.Parameter)
+			_, yPar := arithRoot(bo.Y).(*ssa.Parameter)
+			// (when the helper guards its parameters itself, it is judged in place)
+			_, numHere := guardPositiveChain(bo.Block(), bo.X)
+			_, denHere := guardPositiveChain(bo.Block(), bo.Y)
+			if ((xPar && !numHere) || (yPar && !denHere)) && fn.Object() != nil && !fn.Object().Exported() && fn.Parent() == nil && core.CallersOf != nil {
+				sites := core.CallersOf(fn)
+				if len(sites) > 0 {
+					for _, site := range sites {
+						args := site.Common().Args
+						if len(args) != len(fn.Params) {
+							continue
+						}
+						bind := map[*ssa.Parameter]ssa.Value{}
+						for i, p := range fn.Params {
+							bind[p] = args[i]
+						}
+						divSites = append(divSites, divSite{site.Parent(), site.Block(), bo, bind})
+					}
+					return
+				}
+			}
+			divSites = append(divSites, divSite{fn, bo.Block(), bo, nil})
+		})
+	}
+	for _, ds := range divSites {
+		func() {
+			fn, bo, gblk := ds.host, ds.bo, ds.blk
+			c20Bind = ds.bind
+			defer func() { c20Bind = nil }()
 			nDiv++
 			key := fmt.Sprintf("kxps|%s|rate-division#%d", core.FuncName(fn), nDiv)
-			num, numOK := guardPositiveChain(bo.Block(), bo.X)
-			den, denOK := guardPositiveChain(bo.Block(), bo.Y)
+			num, numOK := guardPositiveChain(gblk, bo.X)
+			den, denOK := guardPositiveChain(gblk, bo.Y)
 			if !numOK {
 				num = arithRoot(bo.X)
 			}
@@ -203,7 +261,7 @@ func runC20(c *Ctx) {
 				R.Note("C20.units", key+"|per-second", P.InstrPos(bo), "rate formula shape not recognised for the unit check (no obligation)")
 			}
 			// the complementary branch of the growth guard yields constant 0
-			for _, g := range core.Guards(bo.Block()) {
+			for _, g := range core.Guards(gblk) {
 				a, _ := core.AtomOf(g)
 				if a.LV == nil || stripAllConv(a.LV) != stripAllConv(num) || a.Op != ">" {
 					continue
@@ -232,7 +290,7 @@ func runC20(c *Ctx) {
 					"a stalled or backwards counter yields the constant 0",
 					"the branch taken when the counter did not grow does not yield the constant 0", nil)
 			}
-		})
+		}()
 	}
 
 	// ---- C20.started and C20.scale
@@ -276,6 +334,38 @@ func runC20(c *Ctx) {
 				}
 			}
 			if !guarded {
+				// the guard extracted into a helper (v.mustStarted()): a call that precedes the read, on the same
+				// receiver, of a module function that returns only behind started and panics otherwise
+				core.EachInstr(fn, func(in2 ssa.Instruction) {
+					hc, isCall := in2.(*ssa.Call)
+					if !isCall || hc.Call.StaticCallee() == nil || !core.Precedes(hc, call) {
+						return
+					}
+					h := hc.Call.StaticCallee()
+					if !core.InModule(h) || len(h.Blocks) == 0 || len(hc.Call.Args) == 0 || hc.Call.Args[0] != ssa.Value(fn.Params[0]) {
+						return
+					}
+					panics, allBehind := false, true
+					core.EachInstr(h, func(x ssa.Instruction) {
+						switch y := x.(type) {
+						case *ssa.Panic:
+							panics = true
+						case *ssa.Return:
+							behind := false
+							for _, a := range core.GuardAtoms(y.Block()) {
+								if strings.HasSuffix(a.L, ".imp.started") && a.Op == "is" {
+									behind = true
+								}
+							}
+							allBehind = allBehind && behind
+						}
+					})
+					if panics && allBehind {
+						guarded = true
+					}
+				})
+			}
+			if !guarded {
 				ok = false
 			}
 		}
@@ -293,10 +383,21 @@ func runC20(c *Ctx) {
 			ret = r.Results[0]
 		}
 		shape := "other"
-		if ret == ssa.Value(call) {
+		// the scaling may sit in a helper applied to the reading (bpsToKbps(v.imp.Xps10s())): one level, the helper's
+		// parameter standing for the reading
+		var readingParam ssa.Value
+		if rc, isCall := ret.(*ssa.Call); isCall && rc != call && len(rc.Call.Args) == 1 && rc.Call.Args[0] == ssa.Value(call) {
+			if h := rc.Call.StaticCallee(); h != nil && core.InModule(h) && len(h.Blocks) > 0 && len(h.Params) == 1 {
+				if rets := core.Returns(h); len(rets) == 1 && len(rets[0].Results) == 1 {
+					ret, readingParam = rets[0].Results[0], h.Params[0]
+				}
+			}
+		}
+		isReading := func(v ssa.Value) bool { return v == ssa.Value(call) || (readingParam != nil && v == readingParam) }
+		if isReading(ret) {
 			shape = "raw"
 		} else if q, ok := ret.(*ssa.BinOp); ok && q.Op == token.QUO {
-			if m, ok := q.X.(*ssa.BinOp); ok && m.Op == token.MUL && m.X == ssa.Value(call) {
+			if m, ok := q.X.(*ssa.BinOp); ok && m.Op == token.MUL && isReading(m.X) {
 				mf, _ := constFloat(m.Y)
 				qf, _ := constFloat(q.Y)
 				if mf == 8 && qf == 1000 {
@@ -366,10 +467,19 @@ func runC20(c *Ctx) {
 				st, ok := in.(*ssa.Store)
 				return ok && core.FieldVar(st.Addr) == fv
 			}
-			ok, bad := core.MustPassThrough(smp.Blocks[0], isStore, func(r *ssa.Return) bool {
-				cst, isC := r.Results[0].(*ssa.Const)
-				return !(isC && cst.Value != nil && cst.Value.String() == "false")
-			})
+			// every path whose result (a phi of a single merged return is resolved by the edge taken) is not the
+			// constant false passes a store
+			ok := true
+			var bad *ssa.Return
+			for _, pr := range returnsFromEntry(smp, isStore) {
+				cst, isC := pr.ops[0].(*ssa.Const)
+				if isC && cst.Value != nil && cst.Value.String() == "false" {
+					continue
+				}
+				if !pr.passed {
+					ok, bad = false, pr.ret
+				}
+			}
 			pos := P.Pos(smp.Pos())
 			if bad != nil {
 				pos = P.InstrPos(bad)
@@ -420,7 +530,7 @@ func rateUnits(div *ssa.BinOp) (k, u int64, shape string) {
 	// denominator: conversions down to an integer division by a constant
 	d := div.Y
 	for i := 0; i < 8; i++ {
-		d = core.StripConv(d)
+		d = core.StripConv(c20Subst(core.StripConv(d)))
 		if cv, ok := d.(*ssa.Convert); ok {
 			d = cv.X
 			continue
